@@ -500,3 +500,86 @@ def clean_sequence(seed, n_records=None, thorough=False, big=False):
         if record_problem(r) is None:
             recs.append(r)
     return desc, recs
+
+
+def field_retyped_pair(rng):
+    """Two descriptors (different names) sharing FIELD NAMES with different types: a datetime in one, an integer / float type
+    in the other - what a reader remembering 'this field name is a datetime' across files would convert."""
+    from flow.record import RecordDescriptor
+
+    names = gen.unique_names(rng, 3)
+    other = [rng.choice(("varint", "float", "filesize", "unix_file_mode")) for _ in names]
+    a = RecordDescriptor(gen.rand_typename(rng), [("datetime", names[0]), ("string", names[1]), (other[2], names[2])])
+    b = RecordDescriptor(gen.rand_typename(rng), [(other[0], names[0]), (other[1], names[1]), ("datetime", names[2])])
+    return a, b
+
+
+def field_retyped_records(rng, desc):
+    """Records for field_retyped_pair: numeric fields hold values above 2**32 (exactly representable in single precision)."""
+    out = []
+    for i in range(rng.choice([1, 3, 8])):
+        kw = {}
+        for t, n in desc.get_field_tuples():
+            t, n = str(t), str(n)
+            if t == "datetime":
+                kw[n] = rng.choice(_dt_pool())
+            elif t == "float":
+                kw[n] = float(2 ** rng.randint(33, 60))
+            elif t == "string":
+                kw[n] = "s%d" % i
+            else:
+                kw[n] = 2**32 + 1 + rng.randint(0, 2**40)
+        out.append(desc.recordType(**kw))
+    return [r for r in out if record_problem(r) is None]
+
+
+# ---- reader usage histories ---------------------------------------------------------------------------------------------------
+USAGE_PATTERNS = ("peek-then-loop", "islice-batches", "break-then-resume", "exception-then-resume", "two-peeks")
+
+
+def usage_read(rd, pattern, rng, n_hint):
+    """Consume the reader `rd` completely, but not in one plain loop: iterations are abandoned half way and the SAME reader
+    is iterated again.  -> every record obtained, in the order obtained."""
+    from itertools import islice
+
+    out = []
+    k = rng.choice([1, 2, 3, 7]) if n_hint < 50 else rng.choice([1, 7, 39, 100, 333])
+    if pattern == "peek-then-loop":
+        first = next(iter(rd), None)
+        if first is not None:
+            out.append(first)
+        out.extend(rd)
+    elif pattern == "two-peeks":
+        for _ in range(2):
+            x = next(iter(rd), None)
+            if x is not None:
+                out.append(x)
+        out.extend(rd)
+    elif pattern == "islice-batches":
+        while True:
+            batch = list(islice(rd, k))
+            if not batch:
+                break
+            out.extend(batch)
+            if len(out) > 3 * n_hint + 10:
+                break  # a reader that starts over on every iteration would never end: the caller sees the surplus
+    elif pattern == "break-then-resume":
+        for r in rd:
+            out.append(r)
+            if len(out) == k:
+                break
+        for r in rd:
+            out.append(r)
+            if len(out) == 3 * k:
+                break
+        out.extend(rd)
+    else:
+        try:
+            for r in rd:
+                out.append(r)
+                if len(out) == k:
+                    raise KeyError("handled by the caller")
+        except KeyError:
+            pass
+        out.extend(rd)
+    return out
